@@ -141,11 +141,13 @@ def run_dedicated(case):
                 c = cands[-1]
                 cer_sent.add(c.idx)
                 pi = getattr(c, "intended", 0)
-                if ev[1] in ("known", "known-mixed-case"):
+                if ev[1] in ("known", "known-mixed-case", "known-relay"):
                     c.host = f"peer{pi + 1}.example"
                     # DiameterIdentity is case-insensitive: the peer may spell its own name differently
-                    spelled = c.host if ev[1] == "known" else f"Peer{pi + 1}.EXAMPLE"
-                    w.feed_msg(c, {"k": "CER", "host": spelled, "auth": [4], "hbh": hbh, "e2e": hbh})
+                    spelled = f"Peer{pi + 1}.EXAMPLE" if ev[1] == "known-mixed-case" else c.host
+                    # a relay agent advertises the Relay application only (RFC 6733 2.4) and is accepted
+                    apps_ = [W.APP_RELAY] if ev[1] == "known-relay" else [4]
+                    w.feed_msg(c, {"k": "CER", "host": spelled, "auth": apps_, "hbh": hbh, "e2e": hbh})
                 elif ev[1] == "unknown":
                     w.feed_msg(c, {"k": "CER", "host": "stranger.example", "auth": [4], "hbh": hbh, "e2e": hbh})
                 else:
@@ -162,7 +164,8 @@ def run_dedicated(case):
                 if cands:
                     c = cands[-1]
                     pi = int(c.remote.addr[0].split(".")[-1]) - 1
-                    w.answer_cer(c, ev[1], auth=(4,), host=f"peer{pi + 1}.example" if hbh % 2 else f"PEER{pi + 1}.example")
+                    w.answer_cer(c, ev[1], auth=(W.APP_RELAY,) if hbh % 3 == 0 else (4,),
+                                 host=f"peer{pi + 1}.example" if hbh % 2 else f"PEER{pi + 1}.example")
                     c.host = f"peer{pi + 1}.example"
             else:
                 live = [c for c in w.conns if not c.node_closed and not c.peer_closed]
@@ -216,6 +219,8 @@ def evaluate(case) -> Result:
             res.classes.append(f"ev:{ev[0]}")
             if ev[0] == "CER" and ev[1] == "known-mixed-case":
                 res.classes.append("cer:mixed-case")
+            if ev[0] == "CER" and ev[1] == "known-relay":
+                res.classes.append("cer:relay")
         res.sample = {"case": case, "transcript": summary[:3]}
     for sig, d in viol:
         res.v(sig, d)
@@ -225,7 +230,7 @@ def evaluate(case) -> Result:
 
 def dedicated_cases():
     acc = st.tuples(st.just("ACCEPT"), st.integers(0, 2), st.sampled_from(["fresh", "fresh", "fresh", "second"]))
-    ev = st.one_of(acc, acc, st.tuples(st.just("CER"), st.sampled_from(["known", "known", "known-mixed-case", "unknown", "nocommon"])),
+    ev = st.one_of(acc, acc, st.tuples(st.just("CER"), st.sampled_from(["known", "known", "known-mixed-case", "known-relay", "unknown", "nocommon"])),
                    st.tuples(st.just("CER"), st.just("known")),
                    st.tuples(st.just("DIAL"), st.booleans(), st.integers(0, 2)),
                    st.tuples(st.just("CEA"), st.sampled_from([2001, 2001, 3010])),
@@ -350,7 +355,7 @@ def run(tier, scale=1.0):
     rec = Recorder(PID)
     for d in hyp.pool_run(shard_main, (tier, scale)):
         rec.merge(d)
-    required = {"cer:mixed-case": 1, "machine:dedicated": 1, "machine:c10": 1, "machine:c06": 1, "machine:c12": 1, "machine:c09": 1, "ev:NODE_CLOSE": 1,
+    required = {"cer:relay": 1, "cer:mixed-case": 1, "machine:dedicated": 1, "machine:c10": 1, "machine:c06": 1, "machine:c12": 1, "machine:c09": 1, "ev:NODE_CLOSE": 1,
                 "ev:ACCEPT": 1, "ev:DIAL": 1, "ev:RESET": 1, "ev:WRITE_FAIL": 1}
     return finish(rec, tier=tier, level="exploration", rule=RULE, assumptions=ASSUME, t0=t0,
                   required_classes=required)
